@@ -40,7 +40,8 @@ ASSUMPTIONS = [
     "AF_UNIX delivery is synchronous, so virtual-time jumps cannot overtake bytes in flight",
     "the origin reads the complete request before it answers (no early-response races)",
 ]
-REQUIRED_COUNTERS = ["oracle_evals", "accept_ok", "reject_err", "gzip_decoded", "limit_evals", "streaming_runs"]
+REQUIRED_COUNTERS = ["oracle_evals", "accept_ok", "reject_err", "gzip_decoded", "limit_evals", "streaming_runs",
+                     "bodiless_gzip_label_ok"]
 SHARD_TIMEOUT = {"quick": 240, "thorough": 3600}
 
 CRLF = b"\r\n"
@@ -230,6 +231,12 @@ def build_case(rng, tier):
         out += b"HTTP/1.1 %d %s" % (code, rng.choice([b"Continue", b"Early Hints", b""])) + eol
         if rng.random() < 0.4:
             out += b"Link: </style.css>; rel=preload" + eol
+        if rng.random() < 0.12:
+            # an interim head repeating a representation header of the final response; it has no body and says
+            # nothing about the coding of the message that follows it
+            out += b"Content-Encoding: " + rng.choice([b"gzip", b"gzip", b"GZIP"]) + eol
+            if "gzip-label-on-interim" not in notes:
+                notes.append("gzip-label-on-interim")
         if mut == "i_cl" and i == 0:
             out += b"Content-Length: %d" % rng.choice([0, 0, 3]) + eol
         if mut == "i_te" and i == 0:
@@ -287,6 +294,7 @@ def build_case(rng, tier):
     if mut in ("te_gzip", "te_identity"):
         framing = rng.choice(["cl", "close"])
     gzv = None
+    gz_bodiless = False
     if not bodiless and rng.random() < 0.35:
         gzv = rng.choice(GZ_VARIANTS)
     wire_body = body
@@ -294,6 +302,12 @@ def build_case(rng, tier):
     ce = None
     if gzv:
         wire_body, ce = gz_wire(rng, body, gzv)
+    elif bodiless and rng.random() < 0.45:
+        # a message that has no body (response to HEAD, 204, 304) but repeats the representation
+        # headers of the GET response, Content-Encoding: gzip included (RFC 9110 9.3.2 / 15.4.5):
+        # there is nothing to decode, the strict reader extracts an empty body
+        ce = rng.choice([b"gzip", b"gzip", b"gzip", b"GZIP", b"Gzip"])
+        gz_bodiless = True
     elif rng.random() < 0.05:
         ce = rng.choice([b"identity", b"br", b"deflate"])  # not decoded by the client: delivered as is
     if bodiless:
@@ -303,7 +317,7 @@ def build_case(rng, tier):
     hdrs = []
     for _ in range(rng.choice([0, 1, 2, 3, 5])):
         hdrs.append(rng.choice(HDRS))
-    if ce is not None and (not bodiless or rng.random() < 0.5):
+    if ce is not None and (not bodiless or gz_bodiless or rng.random() < 0.5):
         hdrs.insert(rng.randrange(len(hdrs) + 1), (b"Content-Encoding", ce))
     frame_hdrs = []
     if bodiless:
@@ -425,6 +439,8 @@ def build_case(rng, tier):
     gl = MUTATIONS.get(mut, "accept") if mut else "accept"
     if gzv in ("two_members", "garbage_tail"):
         notes.append("gzip:" + gzv)
+    if gz_bodiless:
+        notes.append("gzip-label-on-bodiless")
     return {"method": method, "stream": stream, "eof": eof_mode, "mut": mut, "gen_label": gl,
             "gz": gzv, "framing": "none" if bodiless else framing, "code": code, "head_end": head_end,
             "cfg_seed": rng.getrandbits(32), "notes": notes}
@@ -483,6 +499,26 @@ def directed_cases():
     yield case(b"HTTP/1.1 200 OK\r\nContent-Encoding: gzip\r\nContent-Length: %d\r\n\r\n" % len(gz) + gz, gz="valid")
     yield case(b"HTTP/1.1 200 OK\r\nContent-Length: 5\r\n\r\nhello", method="HEAD")
     yield case(b"HTTP/1.1 304 Not Modified\r\nContent-Length: 5\r\n\r\n", eof="hold")
+    # messages without a body that repeat the representation headers of the gzip-coded GET response: nothing
+    # to decode, the fetch succeeds with an empty body (round-3 seeded change C08d)
+    both = [{"cuts": "whole", "plan": "none", "stream_cb": sc, "decompress": True, "max_body": mb, "tmo": "default", "rs": 3}
+            for sc, mb in ((True, None), (False, 100))]
+    rep_hdrs = b"Content-Encoding: gzip\r\nETag: \"abc\"\r\nContent-Length: %d\r\n\r\n" % len(gz)
+    yield case(b"HTTP/1.1 200 OK\r\n" + rep_hdrs, method="HEAD", framing="none", notes=["directed", "gzip-label-on-bodiless"],
+               force_cfgs=both)
+    yield case(b"HTTP/1.1 304 Not Modified\r\n" + rep_hdrs, framing="none", code=304,
+               notes=["directed", "gzip-label-on-bodiless"], force_cfgs=both)
+    yield case(b"HTTP/1.1 204 No Content\r\nContent-Encoding: gzip\r\n\r\n", framing="none", code=204, eof="hold",
+               notes=["directed", "gzip-label-on-bodiless"], force_cfgs=both)
+    yield case(b"HTTP/1.1 200 OK\r\nContent-Encoding: GZIP\r\nTransfer-Encoding: chunked\r\n\r\n", method="HEAD",
+               framing="none", notes=["directed", "gzip-label-on-bodiless"], force_cfgs=both)
+    # found while widening that class: the gzip label of an interim head leaked into the final response, whose
+    # identity-coded body was inflated -> 599 (fixes/C08-interim-content-encoding-leaks-into-final-response.patch)
+    yield case(b"HTTP/1.1 103 Early Hints\r\nContent-Encoding: gzip\r\n\r\nHTTP/1.1 200 OK\r\nContent-Length: 5\r\n\r\nhello",
+               notes=["directed", "gzip-label-on-interim"], force_cfgs=both)
+    yield case(b"HTTP/1.1 100 Continue\r\nContent-Encoding: gzip\r\n\r\nHTTP/1.1 200 OK\r\nContent-Encoding: gzip\r\n"
+               b"Content-Length: %d\r\n\r\n" % len(gz) + gz, gz="valid", notes=["directed", "gzip-label-on-interim"],
+               force_cfgs=both)
 
 
 # ------------------------------------------------------------------ oracle
@@ -712,7 +748,8 @@ async def _scenario(case, cfgs, state, ctx):
 def run_case(case, ctx):
     cfgs = configs_for(case, ctx.tier)
     state = {"awaiting": None}
-    nontriv = bool(case["mut"]) or len(case["stream"]) > case["head_end"] or case["stream"].count(b"HTTP/1.") > 1
+    nontriv = (bool(case["mut"]) or len(case["stream"]) > case["head_end"] or case["stream"].count(b"HTTP/1.") > 1
+               or "gzip-label-on-bodiless" in case["notes"])
     ctx.mark((case["method"], case["stream"], case["eof"]), nontriv)
     with LogMon() as lm:
         try:
@@ -851,6 +888,12 @@ def judge(case, c, exp, out, chunks, rec, ctx):
         if exp.cls == "either":
             ctx.count("either_rejected")
             return
+        if "gzip-label-on-interim" in case["notes"] and c["decompress"] and not exp.gz_applied and exp.body:
+            ctx.violation("accept/fetch-failed/interim-content-encoding-applied-to-final-response",
+                          "an interim (1xx) response carried Content-Encoding: gzip; the identity-coded body of the final "
+                          "response was then run through the gzip decoder and the fetch failed",
+                          dict(wit, error=repr(out[1])[:300], want_code=exp.code, want_body_len=len(exp.body)))
+            return
         ctx.violation("accept/fetch-failed/" + _accept_key(case, exp),
                       "fetch failed on a stream the strict reader accepts",
                       dict(wit, error=repr(out[1])[:300], want_code=exp.code, want_body_len=len(exp.body)))
@@ -859,6 +902,8 @@ def judge(case, c, exp, out, chunks, rec, ctx):
     ctx.count("accept_ok" if exp.cls == "accept" else "either_accepted")
     if exp.gz_applied:
         ctx.count("gzip_decoded")
+    if "gzip-label-on-bodiless" in case["notes"] and c["decompress"]:
+        ctx.count("bodiless_gzip_label_ok")
     got_body = b"".join(chunks) if c["stream_cb"] else r.body
     if c["stream_cb"] and r.body:
         ctx.violation("streaming/body-also-buffered", "with a streaming_callback the response body is not empty", wit)
@@ -905,6 +950,8 @@ def _accept_key(case, exp):
     k = case["framing"] if case["framing"] in ("cl", "chunked", "close", "none") else "x"
     if exp.gz_applied:
         k += "+gzip"
+    elif "gzip-label-on-bodiless" in case["notes"]:
+        k += "+gzip-label"
     if case["method"] == "HEAD":
         k += "+head"
     if case["stream"].count(b"HTTP/1.") > 1:
